@@ -373,7 +373,8 @@ def _run_meta(case, td):
     im, kw, desc, sp = _make_image(c0, rng, "float64")
     nch = case["channels"]
     fields = ["medium_index", "illum_wavelen", "illum_polarization", "noise_sd"]
-    flags = {"only_named_changed": True, "named_changed": True, "original_untouched": True, "pol_unit": True, "values_coords_kept": True, "is_copy": True}
+    flags = {"only_named_changed": True, "named_changed": True, "original_untouched": True, "pol_unit": True, "values_coords_kept": True, "is_copy": True,
+             "shares_no_pixel_memory": True, "original_untouched_by_edits_of_result": True}
     before = digest(im)
     nsub = 0
     for r in range(0, 5):
@@ -412,6 +413,21 @@ def _run_meta(case, td):
                     flags["only_named_changed"] &= bool(digest(b.attrs.get(k)) == digest(im.attrs.get(k)))
             flags["only_named_changed"] &= bool(set(b.attrs) == set(im.attrs))
             flags["original_untouched"] &= bool(digest(im) == before)
+            # "a new image": editing the result in place afterwards (b -= b.mean(), b.illum_wavelen.loc[...] = ...) must stay in it
+            flags["shares_no_pixel_memory"] &= bool(not np.shares_memory(b.values, im.values))
+            b.values[...] = b.values + 100.0
+            b -= 1.0
+            for k in fields:
+                v = b.attrs.get(k)
+                if hasattr(v, "values") and getattr(v.values, "ndim", 0) > 0 and v.values.flags.writeable:
+                    v.values[...] = 123.0
+            for d in b.dims:
+                if b[d].values.dtype.kind == "f" and b[d].values.flags.writeable:
+                    try:
+                        b[d].values[...] = b[d].values + 7.0
+                    except ValueError:
+                        pass
+            flags["original_untouched_by_edits_of_result"] &= bool(digest(im) == before)
     return {"resid": {}, "flags": {k: bool(v) for k, v in flags.items()}, "subsets": nsub, "const": False}
 
 
